@@ -6,7 +6,7 @@ import pattern as P
 import rlpclass
 import shapes
 from common import short
-from kernel import assume, ok_payload, payload_base, same_value, strip
+from kernel import E, assume, ok_payload, payload_base, same_value, strip
 from rules.c01 import ret_exprs
 from rules.tables import const_key, typed_calls, value_class_of_expr
 from rules.typestate import const_int, value_is_rlp_of
@@ -128,6 +128,9 @@ def writers_rule(ctx, report, rule="WRITE"):
         if f is None:
             continue
         calls = typed_calls(ctx, f, ("add_value", "add_value_rlp"))
+        if not calls:
+            # the builder's setters may store through another private route: recognise the primitive content insert
+            calls = builder_primitive_writes(ctx, f)
         ok = len(calls) == 1 and calls[0]["name"] == "add_value"
         why = "%d add_value calls" % len(calls)
         if ok:
@@ -163,6 +166,33 @@ def writers_rule(ctx, report, rule="WRITE"):
     generic_writers_rule(ctx, report, rule)
 
 
+def builder_primitive_writes(ctx, f, an=None):
+    """`self.content.insert(key.., rlp)` sites of a builder method, presented
+    like typed add_value calls: rlp must be the encoding of one value of a
+    known type (value_is_rlp_of), which then plays the role of add_value's
+    type argument"""
+    from rules.typestate import value_is_rlp_of
+    an = an or ctx.an(f)
+    out = []
+    evs = an.events(1, True)
+    for bb in sorted(evs):
+        if bb not in an.cfg.succ:
+            continue
+        for ev in evs[bb]:
+            t = ev.get("term")
+            if ev["kind"] != "mutcall" or t is None or not t.callee or t.callee.name != "insert" or "BTreeMap" not in t.callee.fn or ev["path"][:1] != ["content"] or len(t.args) != 3:
+                continue
+            kexpr = strip(an.operand_expr(t.args[1], bb, ev["idx"]))
+            kk = kexpr.a[1][0] if (kexpr.k == "call" and kexpr.a[0].name in ("to_vec", "into", "to_owned", "from", "clone") and kexpr.a[1]) else kexpr
+            v = value_is_rlp_of(an, t, 2)
+            if v.get("kind") != "rlp":
+                out.append(dict(name="insert", key=const_key(kk), targs=["?", "?"], args=[strip(an.operand_expr(t.args[0], bb, ev["idx"])), kk, strip(an.operand_expr(t.args[2], bb, ev["idx"]))], bb=bb, sp=t.sp, term=t))
+                continue
+            ty = v["ty"]
+            out.append(dict(name="add_value", key=const_key(kk), targs=["K", ty[1:] if ty.startswith("&") and not ty.startswith("&[") else ty], args=[E("param", 1, "self"), kk, v["value"]], bb=bb, sp=t.sp, term=t))
+    return out
+
+
 def generic_writers_rule(ctx, report, rule):
     """insert = insert_raw_rlp(key, rlp(value), signer); add_value =
     add_value_rlp(key, rlp(value)); add_value_rlp = content.insert(key, rlp)"""
@@ -175,6 +205,13 @@ def generic_writers_rule(ctx, report, rule):
         cs = [(b, t) for b, t in f.calls() if t.callee and t.callee.local and t.callee.name == inner]
         ok = len(cs) == 1
         why = "%d calls to %s" % (len(cs), inner)
+        if not cs and path.startswith("builder::"):
+            # stored through another private route: the primitive insert must be (key, rlp(value)) on every path
+            pw = builder_primitive_writes(ctx, f)
+            good = len(pw) == 1 and pw[0]["name"] == "add_value" and strip(pw[0]["args"][1]).k == "param" and strip(pw[0]["args"][1]).a[0] == 2 and strip(pw[0]["args"][2]).k == "param" and strip(pw[0]["args"][2]).a[0] == 3 and all(an.cfg.dominates(pw[0]["bb"], x) for x in an.cfg.exits)
+            report.check(rule, f.name + "/generic", good, "%s stores exactly the RLP encoding of its value under its key" % f.name,
+                         "%s does not store (key, rlp(value)) unchanged: %s" % (f.name, [(w["name"], short(w["args"][1], 40), short(w["args"][2], 40)) for w in pw]), fn=f.path, sp=f.span, config=cfg)
+            continue
         if ok:
             b, t = cs[0]
             v = value_is_rlp_of(an, t, 2)
@@ -770,6 +807,8 @@ def client_info_writers(ctx, report, rule="CLIENT"):
                 return None
             van = assume(an, pred)
             calls = [c for c in typed_calls_an(ctx, f, van, (helper,))]
+            if not calls and "Builder" in path:
+                calls = builder_primitive_writes(ctx, f, van)
             lists = []
             for c in calls:
                 if c["key"] != b"client":
@@ -831,7 +870,12 @@ def list_elements(f, an, c):
                     cands.append(an.rvalue_expr(st.rv, blk.idx, i2))
     if len(cands) == 1:
         x = cands[0]
-        return [strip(x.a[1][k2]) for k2 in sorted(x.a[1], key=int)]
+        elems = [strip(x.a[1][k2]) for k2 in sorted(x.a[1], key=int)]
+        # elements appended afterwards on this path (`list.push(build)` under `if let Some(build)`)
+        for blk, t in f.calls():
+            if blk.idx in an.cfg.succ and not blk.cleanup and t.callee and t.callee.name == "push" and "Vec" in t.callee.fn and len(t.args) == 2 and an.cfg.reaches(blk.idx, c["bb"]) and blk.idx != c["bb"]:
+                elems.append(strip(an.operand_expr(t.args[1], blk.idx, len(blk.stmts))))
+        return elems
     return []
 
 
